@@ -59,6 +59,7 @@ class RunInfo:
         storage: str | dict[OUTPUT_TYPE, str],
         cleanup: bool = True,
     ) -> RunInfo:
+        _validate_storage(storage, pipeline)
         run_folder = _maybe_run_folder(run_folder, storage)
         if run_folder is not None:
             if cleanup:
@@ -81,18 +82,7 @@ class RunInfo:
         )
 
     def storage_class(self, output_name: OUTPUT_TYPE) -> type[StorageBase]:
-        if isinstance(self.storage, str):
-            return get_storage_class(self.storage)
-        default: str | None = self.storage.get("")
-        storage: str | None = self.storage.get(output_name, default)
-        if storage is None:
-            msg = (
-                f"Cannot find storage class for `{output_name}`."
-                f" Either add `storage[{output_name}] = ...` or"
-                ' use a default by setting `storage[""] = ...`.'
-            )
-            raise ValueError(msg)
-        return get_storage_class(storage)
+        return _storage_class(self.storage, output_name)
 
     def init_store(self) -> dict[str, StoreType]:
         store: dict[str, StoreType] = {}
@@ -186,6 +176,31 @@ class RunInfo:
     @staticmethod
     def path(run_folder: str | Path) -> Path:
         return Path(run_folder) / "run_info.json"
+
+
+def _storage_class(
+    storage: str | dict[OUTPUT_TYPE, str],
+    output_name: OUTPUT_TYPE,
+) -> type[StorageBase]:
+    if isinstance(storage, str):
+        return get_storage_class(storage)
+    default: str | None = storage.get("")
+    name: str | None = storage.get(output_name, default)
+    if name is None:
+        msg = (
+            f"Cannot find storage class for `{output_name}`."
+            f" Either add `storage[{output_name}] = ...` or"
+            ' use a default by setting `storage[""] = ...`.'
+        )
+        raise ValueError(msg)
+    return get_storage_class(name)
+
+
+def _validate_storage(storage: str | dict[OUTPUT_TYPE, str], pipeline: Pipeline) -> None:
+    """Resolve the storage class of every mapped output *before* the run folder is touched."""
+    for f in pipeline.functions:
+        if f.mapspec is not None and f.mapspec.inputs:
+            _storage_class(storage, f.output_name)
 
 
 def _requires_serialization(storage: str | dict[OUTPUT_TYPE, str]) -> bool:
